@@ -1439,6 +1439,9 @@ func c12ExtractSerCode(repo string) (string, string, error) {
 	if err != nil {
 		return "", "", err
 	}
+	// private helpers that are pure code motion are put back where they are called (c12_inline.go)
+	c12InlineHelpers(f, filepath.Join(repo, "internal", "serialization", "serialization.go"),
+		"definedContainerKey", "internalMarshal", "GenericRegister", "resolvePointerNum", "containerType", "internalUnmarshal")
 	// the record: every field of internalStruct must be one the vocabulary knows, and vice versa
 	if err := c12CheckRecord(f); err != nil {
 		return "", "", err
